@@ -343,11 +343,8 @@ fn fixed_pre() -> Pre {
 /// <= 6 well-formed bytes: the handler is entered exactly once iff there is a
 /// token and the line is not a help request (C01 / C12 routing), and sees name
 /// and arguments exactly as the reference classifies them.
-#[kani::proof]
-#[kani::unwind(10)]
-fn process_input_routing() {
+fn process_input_routing_body(n: usize) {
     let raw: [u8; PL] = kani::any();
-    let n: usize = kani::any();
     kani::assume(n <= PL);
     kani::assume(wf_utf8(&raw, n));
     let is_empty: bool = kani::any();
@@ -377,12 +374,32 @@ fn process_input_routing() {
         let is_help_alone = parsed.ntok == 1;
         assert!((cli.__verif_writer().written == 0) == is_help_alone, "C12: unknown command is answered with an error line");
     }
-    kani::cover!(dispatch && parsed.nitems == 3, "three arguments");
-    kani::cover!(cfg!(not(feature = "help")) || (help && parsed.name_len == 1), "-h on another command");
-    kani::cover!(cfg!(not(feature = "help")) || (help && parsed.name_len == 4 && parsed.nitems == 1), "help <command>");
-    kani::cover!(dispatch && parsed.nitems == 2 && parsed.items.kind[0] == ma::DD, "-h after -- goes to the handler");
-    kani::cover!(is_empty);
+    kani::cover!(n != 6 || (dispatch && parsed.nitems == 3), "three arguments");
+    kani::cover!(n < 4 || cfg!(not(feature = "help")) || (help && parsed.name_len == 1), "-h on another command");
+    kani::cover!(n != 6 || cfg!(not(feature = "help")) || (help && parsed.name_len == 4 && parsed.nitems == 1), "help <command>");
+    kani::cover!(n != 6 || (dispatch && parsed.nitems == 2 && parsed.items.kind[0] == ma::DD), "-h after -- goes to the handler");
+    kani::cover!(n != 4 || cfg!(not(feature = "help")) || (help && parsed.ntok == 1), "help alone");
+    kani::cover!(n != 4 || cfg!(feature = "help") || (dispatch && parsed.ntok == 1 && parsed.name_len == 4 && parsed.name[0] == b'h'), "without the help feature `help` reaches the handler");
+    kani::cover!(n > 0 || is_empty);
+    kani::cover!(n < 1 || dispatch);
 }
+
+macro_rules! routing_len {
+    ($name:ident, $n:expr) => {
+        #[kani::proof]
+        #[kani::unwind(10)]
+        fn $name() {
+            process_input_routing_body($n);
+        }
+    };
+}
+routing_len!(process_input_routing_n0, 0);
+routing_len!(process_input_routing_n1, 1);
+routing_len!(process_input_routing_n2, 2);
+routing_len!(process_input_routing_n3, 3);
+routing_len!(process_input_routing_n4, 4);
+routing_len!(process_input_routing_n5, 5);
+routing_len!(process_input_routing_n6, 6);
 
 /// Reachability twin for the Cli steps.
 #[kani::proof]
